@@ -150,6 +150,21 @@ func genC04(e *emitter, r *rng, thorough bool) {
 		e.emit("siblings.zero", xkLine(root, []string{"c0:2147483655", "c0:5", "z2", "c0:2147483648", "n1", "c0:5", "z5", "n0", "c6:1", "c6:2", "z8"}))
 		e.emit("siblings.zero.quiet", "xkq"+xkLine(root, []string{"c0:2147483655", "c0:5", "z2", "c0:2147483648", "n0", "c4:1", "c4:2", "z5"})[2:])
 	}
+	// revisit: one public parent, then several hundred OTHER public parents, then the first one again (same object and a
+	// re-parsed copy) — what a bounded memo of decoded parents keyed by the serialised key sees when it turns over
+	{
+		k := 300
+		if thorough {
+			k = 1100
+		}
+		ops := []string{"n0", "c1:3"}
+		for j := 1; j <= k; j++ {
+			a := 3 + 3*(j-1)
+			ops = append(ops, fmt.Sprintf("c0:%d", j), fmt.Sprintf("n%d", a), fmt.Sprintf("c%d:0", a+1))
+		}
+		ops = append(ops, "c1:3", "c1:4", "t1", fmt.Sprintf("c%d:3", 3+3*k+2))
+		e.emit("revisit.public-parents", "xkq"+xkLine("seed:"+hx(r.bytes(32))+":0", ops)[2:])
+	}
 	// depth-255 chain
 	{
 		var ops []string
